@@ -1556,7 +1556,10 @@ class Step:
                 except Exception:
                     gotv = None
                 if gotv is not None and M.same(want, gotv):
-                    self.viol("C06", "kept_handle_stale_view_agrees_with_model", [kind, "written_through_" + str(self.op.get("via", "-")), typegen.features(w.schema, o.t)], f"object {o.k}: {M.first_diff(want, got)} (model == rebuilt view, kept handle differs); after {str(self.op)[:300]}")
+                    # (a bulk view — to_nplike / to_nparray — that disagrees with item access on the same
+                    # handle is re-checked only under the construction and restart lenses: theirs)
+                    sprop = "C20" if getattr(o.buf, "_sim_restored", False) else self.lens if self.lens in ("C01", "C20") and "badnplike" in repr(got) else "C06"
+                    self.viol(sprop, "kept_handle_stale_view_agrees_with_model", [kind, "written_through_" + str(self.op.get("via", "-")), typegen.features(w.schema, o.t)], f"object {o.k}: {M.first_diff(want, got)} (model == rebuilt view, kept handle differs); after {str(self.op)[:300]}")
                     continue
             if not M.same(want, got):
                 d = M.first_diff(want, got)
